@@ -362,7 +362,7 @@ func runCase(c *core.Case) {
 		b := 10
 		tree = genTree(r, 2, &b)
 	}
-	mode := []string{"download", "download-script", "upload", "upload-prefilled", "roundtrip", "upload-cut-retry"}[c.Index%6]
+	mode := []string{"download", "download-script", "upload", "upload-prefilled", "roundtrip", "upload-cut-retry", "download-commented"}[c.Index%7]
 	folder := "Folder " + fmt.Sprint(r.Intn(100))
 	var parent []string
 	if r.Bool() {
@@ -395,6 +395,32 @@ func runCase(c *core.Case) {
 		download(c, srv, cl, folder, parent, tree, false)
 	case "download-script":
 		download(c, srv, cl, folder, parent, tree, true)
+	case "download-commented":
+		// somebody has set comments on some of the files (through the protocol, which stores them in hidden side
+		// files next to the files); the folder must download exactly as without them
+		base := append(append([]string{}, parent...), folder)
+		for _, f := range walk(tree, nil, true) {
+			if f.n.dir || !r.Bool() {
+				continue
+			}
+			hiddenAbove := false
+			for _, seg := range f.path[:len(f.path)-1] {
+				if strings.HasPrefix(seg, ".") {
+					hiddenAbove = true
+				}
+			}
+			if hiddenAbove {
+				continue
+			}
+			dir := append(append([]string{}, base...), f.path[:len(f.path)-1]...)
+			rep, ok := cl.Call(207, rc.FS(201, f.path[len(f.path)-1]), rc.F(202, rc.PathS(dir...)), rc.FS(210, "note "+fmt.Sprint(r.Intn(1000))))
+			if !ok || rep.Err != 0 {
+				c.Unsure("set-comment refused: %v", rep)
+				return
+			}
+			c.Count("files_with_comment", 1)
+		}
+		download(c, srv, cl, folder, parent, tree, r.Bool())
 	case "upload":
 		upload(c, srv, cl, "Target", tree, false)
 	case "upload-prefilled":
